@@ -122,8 +122,11 @@ impl Borrows {
 /// One listed instantiation.
 pub trait Case {
     type T: SerializeInner + DeserializeInner;
-    /// Symbolic value of the type (all values within the stated length bounds).
-    fn make() -> Self::T;
+    /// Number of enumerated shapes (sequence lengths / UTF-8 width classes that
+    /// are concrete per harness instance; everything else is symbolic).
+    const SHAPES: usize = 1;
+    /// Symbolic value of the type for shape `shape` (a harness-instance constant).
+    fn make(shape: usize) -> Self::T;
     /// Equality used for full-copy results (bit-for-bit for floats).
     fn same(a: &Self::T, b: &Self::T) -> bool;
     /// Observable equality of an ε-copy result with a value of the original
@@ -147,8 +150,8 @@ fn prefix<const PRE: usize>(w: &mut impl WriteNoStd) {
 
 /// C01: serialize at stream offset PRE, full-copy deserialize with the real
 /// `ReaderWithPos`, compare, and compare the consumed byte count.
-pub fn full_rt<C: Case, const PRE: usize, const N: usize>() {
-    let x = C::make();
+pub fn full_rt<C: Case, const PRE: usize, const N: usize, const S: usize>() {
+    let x = C::make(S);
     let mut s = Sink::<N>::new();
     let n;
     {
@@ -179,8 +182,8 @@ pub fn full_rt<C: Case, const PRE: usize, const N: usize>() {
 
 /// C02: ε-copy from a buffer aligned to 128 equals the original and agrees
 /// with full-copy of the same bytes.
-pub fn eps_rt<C: Case, const PRE: usize, const N: usize>() {
-    let x = C::make();
+pub fn eps_rt<C: Case, const PRE: usize, const N: usize, const S: usize>() {
+    let x = C::make(S);
     let mut s = Sink::<N>::new();
     let n;
     {
@@ -215,8 +218,8 @@ pub fn eps_rt<C: Case, const PRE: usize, const N: usize>() {
 
 /// C03: every borrowed part of the ε-copy result is the block the serializer
 /// wrote (pointer identity with the recorded offset), in bounds and aligned.
-pub fn eps_borrows<C: Case, const PRE: usize, const N: usize>() {
-    let x = C::make();
+pub fn eps_borrows<C: Case, const PRE: usize, const N: usize, const S: usize>() {
+    let x = C::make(S);
     let mut s = Sink::<N>::new();
     let mut p = Probe::new(&mut s);
     prefix::<PRE>(&mut p);
@@ -258,8 +261,8 @@ pub fn eps_borrows<C: Case, const PRE: usize, const N: usize>() {
 
 /// C07 (c): units, zero padding, minimal gaps, exact byte counts, for one
 /// start residue PRE.
-pub fn units_counts<C: Case, const PRE: usize, const N: usize>() {
-    let x = C::make();
+pub fn units_counts<C: Case, const PRE: usize, const N: usize, const S: usize>() {
+    let x = C::make(S);
     let mut s = Sink::<N>::new();
     let mut p = Probe::new(&mut s);
     prefix::<PRE>(&mut p);
@@ -310,8 +313,8 @@ pub fn units_counts<C: Case, const PRE: usize, const N: usize>() {
 /// C12: the stream is placed at every residue R of a 128-aligned buffer.
 /// Oracle from the blocks the Probe recorded: Ok iff every block lands on a
 /// multiple of its unit, else AlignmentError; references are aligned on Ok.
-pub fn misplaced<C: Case, const N: usize, const RMAX: usize>() {
-    let x = C::make();
+pub fn misplaced<C: Case, const N: usize, const RMAX: usize, const S: usize>() {
+    let x = C::make(S);
     let mut s = Sink::<N>::new();
     let mut p = Probe::new(&mut s);
     let r = SerializeInner::_serialize_inner(&x, &mut p);
